@@ -67,7 +67,7 @@ fn render(i: usize, r: &WireReq) -> String {
     s + "\n\n"
 }
 
-async fn run_wire(c: &WireCase) -> Result<(Vec<(String, u64)>, Vec<u8>, bool), String> {
+async fn run_wire(c: &WireCase) -> Result<(Vec<(String, u64)>, Vec<u8>, bool, Vec<u8>), String> {
     let (mut to_plugin, plugin_in) = tokio::io::duplex(c.in_buf.max(1) as usize);
     let (plugin_out, mut from_plugin) = tokio::io::duplex(c.out_buf.max(1) as usize);
     let mut gates_tx = vec![];
@@ -177,6 +177,8 @@ async fn run_wire(c: &WireCase) -> Result<(Vec<(String, u64)>, Vec<u8>, bool), S
     for _ in 0..20 {
         tokio::time::sleep(Duration::from_millis(5)).await;
     }
+    // what has been written before any gated handler is released: replies of ungated handlers must be here
+    let before_release = out.lock().unwrap().clone();
     // release the gated handlers in the generated order
     let gated: Vec<usize> = (0..c.reqs.len()).filter(|i| c.reqs[*i].id.is_some() && !c.reqs[*i].immediate).collect();
     let mut remaining = gated.clone();
@@ -201,7 +203,7 @@ async fn run_wire(c: &WireCase) -> Result<(Vec<(String, u64)>, Vec<u8>, bool), S
     reader.abort();
     let invoked = st.invoked.lock().unwrap().clone();
     let o = out.lock().unwrap().clone();
-    Ok((invoked, o, started))
+    Ok((invoked, o, started, before_release))
 }
 
 pub fn check(c: &WireCase) -> CaseReport {
@@ -217,7 +219,18 @@ pub fn check(c: &WireCase) -> CaseReport {
     }
     match res {
         Err(e) => v(&mut rep, "handshake_failed", e),
-        Ok((invoked, out, _)) => {
+        Ok((invoked, out, _, before_release)) => {
+            // a handler that does not wait for the harness must be answered while all the others are still parked
+            let early = String::from_utf8_lossy(&before_release).to_string();
+            let early_frames: Vec<Value> = early.split("\n\n").filter_map(|f| serde_json::from_str::<Value>(f).ok()).collect();
+            for (i, r) in c.reqs.iter().enumerate() {
+                if let (Some(id), true) = (&r.id, r.immediate) {
+                    let idj = id_json(id);
+                    if !early_frames.iter().any(|f| f["id"] == idj) {
+                        v(&mut rep, "ungated_request_waited_for_others", format!("request {i} (id {idj}) finishes at once, but had no reply while {} other handlers were parked", c.reqs.iter().filter(|x| x.id.is_some() && !x.immediate).count()));
+                    }
+                }
+            }
             // every request decoded exactly once, in order
             let want: Vec<(String, u64)> = c.reqs.iter().enumerate().map(|(i, r)| (if r.id.is_some() { "probe".to_string() } else { "note".to_string() }, i as u64)).collect();
             if invoked != want {
@@ -308,7 +321,11 @@ fn id_strategy() -> impl Strategy<Value = Option<WireId>> {
 
 pub fn case_strategy() -> impl Strategy<Value = WireCase> {
     (
-        proptest::collection::vec((id_strategy(), payload_strategy(), prop_oneof![4 => Just(true), 1 => Just(false)], any::<bool>(), any::<bool>()), 1..7),
+        prop_oneof![
+            9 => proptest::collection::vec((id_strategy(), payload_strategy(), prop_oneof![4 => Just(true), 1 => Just(false)], any::<bool>(), any::<bool>()), 1..7),
+            // many calls parked at the same time (like HTLCs held by the plugin) plus a few that finish at once
+            1 => proptest::collection::vec((id_strategy(), "[a-z]{0,6}", Just(true), prop_oneof![9 => Just(false), 1 => Just(true)], Just(false)), 34..70),
+        ],
         prop_oneof![
             2 => Just(vec![1u16]),
             3 => proptest::collection::vec(1u16..8, 1..6),
